@@ -435,7 +435,7 @@ func (w *failWriter) Write(p []byte) (int, error) {
 }
 
 func suiteFaults(R *runner, r *rng) {
-	R.rule("faults: for documents of every format, a read error (not EOF) injected at byte offset k, for every k up to 600 offsets per document (all offsets in the thorough tier), delivered alone or together with the last bytes; for TTML up to the end of the root element; lines of 2^16..2^20 bytes; for cue lists written to every format, a destination failing after k bytes for every k below the document length (sampled beyond 600); file helpers on missing / uncreatable paths; oracle: a non-nil error is returned; without a fault the complete document reaches the destination; non-trivial = the fault hits before the end of the document")
+	R.rule("faults: for documents of every format, a read error (not EOF) injected at byte offset k, for every k up to 600 offsets per document (all offsets in the thorough tier), delivered alone or together with the last bytes; for TTML up to the end of the root element; lines of 2^16..2^20 bytes; for cue lists written to every format, a destination failing after k bytes for every k below the document length (sampled beyond 600); file helpers on missing / uncreatable paths, a destination that refuses every byte (/dev/full) and a source whose reads fail (a directory); oracle: a non-nil error is returned; without a fault the complete document reaches the destination; non-trivial = the fault hits before the end of the document")
 	docs := sampleDocs(r, 2, false)
 	quick := R.tier != "thorough"
 	for _, d := range docs {
@@ -596,6 +596,32 @@ func suiteFaults(R *runner, r *rng) {
 			o2.Oracle, o2.Sig = "Write to an uncreatable path returns no error", "fault-write-uncreatable"
 		}
 		R.add(o2)
+		// a destination that can be created and closed but refuses every byte (device full)
+		if _, e := os.Stat("/dev/full"); e == nil {
+			full := filepath.Join(dir, "full"+f.ext)
+			os.Remove(full)
+			if e := os.Symlink("/dev/full", full); e == nil {
+				var werr error
+				safely(func() { werr = s.Write(full) })
+				o3 := &obs{Suite: "fault", Group: "fault.files", NoModel: true, NT: true, Input: "write device-full " + f.ext, Human: map[string]interface{}{"op": "Write", "path": "full" + f.ext + " -> /dev/full"}}
+				if werr == nil {
+					o3.Oracle, o3.Sig = "Write to a destination that accepts no byte (ENOSPC) returns no error", "fault-write-devfull"
+				}
+				R.add(o3)
+			}
+		} else {
+			R.note("/dev/full is not available: the file-level write fault is not exercised")
+		}
+		// a source that opens but cannot be read (a directory)
+		dsrc := filepath.Join(dir, "dir"+f.ext)
+		os.Mkdir(dsrc, 0o755)
+		var rerr error
+		safely(func() { _, rerr = astisub.OpenFile(dsrc) })
+		o4 := &obs{Suite: "fault", Group: "fault.files", NoModel: true, NT: true, Input: "open directory " + f.ext, Human: map[string]interface{}{"op": "OpenFile", "path": "dir" + f.ext + "/"}}
+		if rerr == nil {
+			o4.Oracle, o4.Sig = "OpenFile on a path whose reads fail (a directory) returns no error", "fault-open-unreadable"
+		}
+		R.add(o4)
 	}
 	_ = time.Second
 }
